@@ -291,7 +291,7 @@ fn build_runs(thorough: bool, rng: &mut Rng) -> Vec<(RunCfg, Expect)> {
 fn runs_part(out: &mut Out, thorough: bool, rng: &mut Rng) {
     let runs = build_runs(thorough, rng);
     let cfgs: Vec<RunCfg> = runs.iter().map(|r| r.0.clone()).collect();
-    let watchdog = std::time::Duration::from_secs(arg_u64("--watchdog-s", 25));
+    let watchdog = std::time::Duration::from_secs(arg_u64("--watchdog-s", 60));
     let strict_sim_panic = true; // defect F13 (one simulation worker panics, the others keep running) was repaired in /repo
     let results = run_all(&cfgs, watchdog, 16);
     for ((cfg, exp), res) in runs.iter().zip(results.iter()) {
